@@ -155,8 +155,17 @@ class World:
         """configured (known-protocol) services"""
         if not self.has_xquery():
             return {}
-        return {n: t for n, t in self.cfg["services"].items() if t in
+        ents = self.cfg["services"]
+        return {n: t for n, t in ents.items() if t in
                 ("login", "login-ipr", "dronecheck", "combined")}
+
+    def beyond_capacity(self, svc):
+        """The stock module tells 32 services apart and refuses the entries for which no table slot is left
+        (taken in the section's order: case-insensitive by name); a module with wider masks may serve them all.
+        Whether an entry past the 32nd is queried is therefore not demanded - if it is, the query is checked
+        like any other."""
+        ents = self.cfg["services"]
+        return len(ents) > 32 and svc not in sorted(ents, key=lambda n: n.lower())[:32]
 
     def reconfig(self, services, rules):
         """A successful reload put new service and rule tables in force.  The statements determine the
@@ -301,7 +310,7 @@ class World:
         i = e["ctx"]
         if i is not None and i.ended is None and self.has_xquery() and not i.opaque:
             for s, t in sorted(self.services().items()):
-                if not self.prereq(i, t):
+                if not self.prereq(i, t) or self.beyond_capacity(s):
                     continue
                 if t in ("dronecheck", "combined") and s not in i.sent_check:
                     e["req_q"].append((s, "CHECK"))
@@ -462,6 +471,11 @@ class World:
         for ln in lines:
             kind, g = parse_out(ln)
             self.counts["lines"] += 1
+            if not self.banner and kind != "V":
+                # C09 speaks of the channel "from its version banner onwards": what start-up writes before
+                # it (an error about the configuration, say) is not constrained
+                self.probe("line_before_the_banner")
+                continue
             if kind is None:
                 if re.match(r"^[DRkK] -?\d+ ", ln):
                     # a verdict whose content cannot even be parsed is not faithful either
@@ -472,8 +486,6 @@ class World:
             if kind == "V":
                 self.banner = True
                 continue
-            if not self.banner:
-                self.v("C09", "before-banner", "output before the version banner: %r" % ln[:120])
             if kind == "O":
                 self.policy = set(ln[3:])
                 continue
